@@ -333,7 +333,9 @@ def run_property(modname, tier, seed, nproc=None, only=None, verbose=False):
     samples = []
     wres = concrete_batch(modname, witness_items)
     for (ji, w), it, cr in zip(witness_meta, witness_items, wres):
-        inexact = bool(it['cfg'].get('float_inexact'))
+        # a witness whose real inputs could not be made integral / dyadic may differ from its exact-rational prediction
+        # by binary64 rounding alone (a tie in exact arithmetic that is none in floats): not an engine error
+        inexact = bool(it['cfg'].get('float_inexact')) or not w.get('nice', True)
         if cr.get('error'):
             harness_errors.append('witness replay error job %d: %s' % (ji, cr['error']))
             continue
